@@ -46,7 +46,9 @@ var tmpParent = sync.OnceValue(func() string {
 type PutSpec struct {
 	// Kind: "base" - parent directory of the root + "/" + Path, textually (not cleaned);
 	// "elsewhere" - a second, unrelated temp directory + "/" + Path;
-	// "relative" - Path as it is (a relative path);
+	// "relative" - Path as it is (a relative path; this includes URL texts and URL lookalikes
+	// such as "HTTP://h/../../../{R}-x/f", which - joined to the root - collapse to a path
+	// outside the root);
 	// "caseparent" - like "base", but the root's parent directory (relative to the sandbox base)
 	// is spelled with swapped letter case, i.e. a different directory (same as "base" for a
 	// root that lies directly in the sandbox base).
@@ -61,6 +63,14 @@ type Case struct {
 	RootSlash bool      `json:"root_slash,omitempty"` // root handed to NewFileManager with a trailing separator
 	Via       string    `json:"via"`                  // put | putmany | fm | fmmany
 	Puts      []PutSpec `json:"puts"`
+	// Urls: the urlstore is enabled (AllowUrls) while the references are put.
+	Urls bool `json:"urls,omitempty"`
+	// Life2: the same datastore is used again with another configuration and every accepted
+	// reference is read: "" - no second life; otherwise <how>:<config>, how = "reopen" (a new
+	// FileManager / Filestore over the datastore, as after a restart with a changed
+	// configuration) or "toggle" (the public fields of the same FileManager are changed),
+	// config = "files" (AllowFiles only) | "both" | "urls" | "none".
+	Life2 string `json:"life2,omitempty"`
 }
 
 // ---------------------------------------------------------------------------
@@ -145,6 +155,13 @@ func foldInside(root, p string) bool {
 	return true
 }
 
+// isURLText: what the package documents as a urlstore reference (filestore.IsURL: "begins with
+// 'http://' or 'https://'", case-sensitive, something must follow). Own implementation.
+func isURLText(s string) bool {
+	return (strings.HasPrefix(s, "http://") && len(s) > len("http://")) ||
+		(strings.HasPrefix(s, "https://") && len(s) > len("https://"))
+}
+
 func hasDotDot(p string) bool {
 	for _, c := range strings.Split(p, "/") {
 		if c == ".." {
@@ -217,6 +234,7 @@ type putState struct {
 	readable bool // the path denotes a readable file (through the OS)
 	accepted bool
 	f1       bool // accepted although outside, with the string-prefix signature of finding F1
+	isURL    bool // the reference text is a URL by the documented rule (not a file reference)
 }
 
 func run(c Case) kit.Result {
@@ -261,6 +279,7 @@ func run(c Case) kit.Result {
 	mds := dssync.MutexWrap(ds.NewMapDatastore())
 	fm := filestore.NewFileManager(mds, rootGiven)
 	fm.AllowFiles = true
+	fm.AllowUrls = c.Urls
 	fs := filestore.NewFilestore(blockstore.NewBlockstore(mds), fm, nil)
 
 	cls := map[string]struct{}{}
@@ -298,9 +317,18 @@ func run(c Case) kit.Result {
 				data, st.readable = b[i:], true
 			}
 		}
-		if !st.readable {
+		if ps.Kind == "relative" {
+			// a relative text (URL, URL lookalike, plain relative path): the bytes of the file
+			// that the text denotes if it is joined to the root the way Get joins stored
+			// references - were it ever resolved like that, Get would succeed
+			if b, err := os.ReadFile(filepath.Join(rootClean, st.full)); err == nil && len(b) > i {
+				data = b[i:]
+			}
+		}
+		if data == nil {
 			data = []byte(fmt.Sprintf("no readable file behind put %d: %s", i, st.full))
 		}
+		st.isURL = isURLText(st.full)
 		st.data = data
 		st.node = &posinfo.FilestoreNode{
 			Node:    dag.NewRawNode(data),
@@ -311,6 +339,15 @@ func run(c Case) kit.Result {
 		in := insideOrEqual(rootClean, st.full)
 		sharesPrefix := strings.HasPrefix(st.full, rootClean)
 		switch {
+		case st.isURL:
+			add("path:url")
+			if !insideOrEqual(rootClean, filepath.Join(rootClean, st.full)) {
+				add("path:url-collapsing-outside")
+				nonTrivial = true
+			}
+		case ps.Kind == "relative" && strings.Contains(st.full, ":"):
+			add("path:url-lookalike")
+			nonTrivial = true
 		case ps.Kind == "relative":
 			add("path:relative")
 		case strictlyInside(rootClean, st.full) && hasDotDot(st.full):
@@ -343,8 +380,17 @@ func run(c Case) kit.Result {
 		st := puts[i]
 		if perr == nil {
 			st.accepted = true
+			if st.isURL {
+				// a urlstore reference, not a file reference: acceptance is not judged here;
+				// what is judged is that it is never resolved to a path outside the root
+				add("url-accepted")
+				return nil
+			}
 			if !insideOrEqual(rootClean, st.full) {
 				e := fmt.Errorf("put %d: reference to %q accepted although it is outside the root %q (lexically %q)", i, st.full, rootGiven, lexClean(st.full))
+				if !strings.HasPrefix(st.full, "/") {
+					e = fmt.Errorf("put %d: reference to %q accepted with the root %q: it is neither an absolute path inside the root nor a URL (begins with 'http://' or 'https://'); joined to the root it is %q", i, st.full, rootGiven, filepath.Join(rootClean, st.full))
+				}
 				if strings.HasPrefix(st.full, rootGiven) {
 					// finding F1: the path passes a *string* prefix test against the root
 					st.f1 = true
@@ -418,6 +464,7 @@ func run(c Case) kit.Result {
 	for _, st := range puts {
 		byCid[cid.NewCidV1(cid.Raw, st.node.Cid().Hash()).KeyString()] = st
 	}
+	storedPath := map[string]string{}
 	next, err := filestore.ListAll(ctx, fs, false)
 	if err != nil {
 		return kit.Fail("ListAll: %v", err)
@@ -436,6 +483,15 @@ func run(c Case) kit.Result {
 		if st.f1 {
 			continue // already recorded under the known finding
 		}
+		storedPath[lr.Key.KeyString()] = lr.FilePath
+		if st.isURL && isURLText(lr.FilePath) {
+			// stored as a URL: Get hands it to the urlstore (or refuses), it is not a path
+			if !st.accepted {
+				return kit.Fail("reference to %q is stored (%q) although its Put was rejected", st.full, lr.FilePath)
+			}
+			add("stored-url")
+			continue
+		}
 		resolved := filepath.Join(rootGiven, filepath.FromSlash(lr.FilePath))
 		if !insideOrEqual(rootClean, resolved) {
 			return kit.Fail("stored reference %q (from %q) resolves to %q, outside the root %q", lr.FilePath, st.full, resolved, rootGiven)
@@ -443,28 +499,80 @@ func run(c Case) kit.Result {
 		if !st.accepted {
 			return kit.Fail("reference to %q is stored (%q) although its Put was rejected", st.full, lr.FilePath)
 		}
-		if resolved != lexClean(st.full) {
+		if !st.isURL && resolved != lexClean(st.full) {
 			return kit.Fail("stored reference %q resolves to %q, but the referenced path was %q (%q)", lr.FilePath, resolved, st.full, lexClean(st.full))
 		}
 	}
 	// accepted, inside, and the lexical path denotes the same bytes the OS delivered: Get serves them
-	for i, st := range puts {
-		if !st.accepted || st.f1 || !st.readable || !strictlyInside(rootClean, st.full) {
-			continue
+	serve := func(fsx *filestore.Filestore, life string) *kit.Result {
+		for i, st := range puts {
+			if !st.accepted || st.f1 || !st.readable || !strictlyInside(rootClean, st.full) {
+				continue
+			}
+			lexBytes, err := os.ReadFile(lexClean(st.full))
+			if err != nil || len(lexBytes) <= i || !bytes.Equal(lexBytes[i:], st.data) {
+				add("symlink-dotdot-divergence") // "ln/.." : lexical and physical resolution differ
+				continue
+			}
+			got, err := fsx.Get(ctx, st.node.Cid())
+			if err != nil {
+				r := kit.Fail("put %d: reference to %q accepted, but Get%s fails: %v", i, st.full, life, err)
+				return &r
+			}
+			if !bytes.Equal(got.RawData(), st.data) {
+				r := kit.Fail("put %d: Get%s returned other bytes than the referenced region of %q", i, life, st.full)
+				return &r
+			}
+			add("served")
 		}
-		lexBytes, err := os.ReadFile(lexClean(st.full))
-		if err != nil || len(lexBytes) <= i || !bytes.Equal(lexBytes[i:], st.data) {
-			add("symlink-dotdot-divergence") // "ln/.." : lexical and physical resolution differ
-			continue
+		return nil
+	}
+	if r := serve(fs, ""); r != nil {
+		return *r
+	}
+
+	// second life of the datastore under another configuration (restart with a changed
+	// AllowFiles / AllowUrls, or the public fields toggled): still no stored reference may be
+	// resolved to a path outside the root. With the urlstore off the FileManager has no source
+	// but the file system, so a Get that then succeeds for a reference stored as a URL has read
+	// the file root+reference.
+	if c.Life2 != "" {
+		how, cfg, _ := strings.Cut(c.Life2, ":")
+		files2 := cfg == "files" || cfg == "both"
+		urls2 := cfg == "urls" || cfg == "both"
+		fs2 := fs
+		if how == "toggle" {
+			fm.AllowFiles, fm.AllowUrls = files2, urls2
+		} else {
+			fm2 := filestore.NewFileManager(mds, rootGiven)
+			fm2.AllowFiles, fm2.AllowUrls = files2, urls2
+			fs2 = filestore.NewFilestore(blockstore.NewBlockstore(mds), fm2, nil)
 		}
-		got, err := fs.Get(ctx, st.node.Cid())
-		if err != nil {
-			return kit.Fail("put %d: reference to %q accepted, but Get fails: %v", i, st.full, err)
+		add("life2:" + cfg)
+		for i, st := range puts {
+			sp, ok := storedPath[cid.NewCidV1(cid.Raw, st.node.Cid().Hash()).KeyString()]
+			if !ok || !st.accepted || st.f1 || !isURLText(sp) {
+				continue
+			}
+			if urls2 {
+				continue // would be fetched over the network
+			}
+			got, err := fs2.Get(ctx, st.node.Cid())
+			if err != nil {
+				add("life2:url-refused")
+				continue
+			}
+			resolved := filepath.Join(rootGiven, filepath.FromSlash(sp))
+			if !insideOrEqual(rootClean, resolved) {
+				return kit.Fail("put %d: with the urlstore disabled (%s) Get serves the stored reference %q (%d bytes) from the file system: it resolves to %q, outside the root %q", i, c.Life2, sp, len(got.RawData()), resolved, rootGiven)
+			}
+			add("life2:url-read-as-file-inside")
 		}
-		if !bytes.Equal(got.RawData(), st.data) {
-			return kit.Fail("put %d: Get returned other bytes than the referenced region of %q", i, st.full)
+		if files2 {
+			if r := serve(fs2, " in the second life ("+c.Life2+")"); r != nil {
+				return *r
+			}
 		}
-		add("served")
 	}
 	if stored > 0 {
 		add("stored")
@@ -472,6 +580,9 @@ func run(c Case) kit.Result {
 	add("via:" + c.Via)
 	if c.RootSlash {
 		add("root-trailing-slash")
+	}
+	if c.Urls {
+		add("urlstore-on")
 	}
 	if f1Err != nil {
 		return kit.Result{Err: f1Err, Known: f1Key}
@@ -507,8 +618,30 @@ var pathPool = []string{
 var segPool = []string{"a", "a", "b", "f", "f", "..", "..", ".", "", "..a", "...", "ln", "lin", "lf", "{R}", "{R}-x", "other", "{RC}"}
 var startPool = []string{"{R}", "{R}", "{R}", "{R}", "{R}-x", "{R}x", "{R}.d", "{RC}", "other", ".", ".."}
 
+// URL texts (by the documented rule) and lookalikes that are NOT URLs by that rule (scheme in
+// another letter case, one slash, other scheme, leading blank ...): the latter are relative file
+// paths and lie outside the root.
+var urlHeads = []string{"http://h/", "https://h/", "http://h:8080/", "http://h/d/", "https://127.0.0.1/"}
+var lookalikeHeads = []string{"HTTP://h/", "Https://h/", "hTTp://h/", "HTTPS://h/", "httpS://h/", "Http://h:80/d/",
+	"http:/h/", "https:/h/", "http:h/", "ftp://h/", "file://h/", "//h/", " http://h/", "httpx://h/", "http//h/"}
+var urlTails = []string{"{R}-x/f", "{R}-x/f", "f", "{R}/f", "{R}/a/f", "other/f", "{RC}/f", "{R}x/f", "nonexistent"}
+
+func genURLish(t *rapid.T) PutSpec {
+	var head string
+	if rapid.IntRange(0, 1).Draw(t, "isurl") == 0 {
+		head = rapid.SampledFrom(urlHeads).Draw(t, "urlhead")
+	} else {
+		head = rapid.SampledFrom(lookalikeHeads).Draw(t, "lookhead")
+	}
+	// joined to the root, head + n*"../" climbs out of the root from n = (components of head) + 1
+	n := rapid.SampledFrom([]int{0, 2, 3, 3, 4, 4, 5}).Draw(t, "updirs")
+	return PutSpec{Kind: "relative", Path: head + strings.Repeat("../", n) + rapid.SampledFrom(urlTails).Draw(t, "urltail")}
+}
+
 func genPath(t *rapid.T) PutSpec {
-	switch rapid.IntRange(0, 12).Draw(t, "pathclass") {
+	switch rapid.IntRange(0, 15).Draw(t, "pathclass") {
+	case 13, 14, 15:
+		return genURLish(t)
 	case 12:
 		return PutSpec{Kind: "caseparent", Path: rapid.SampledFrom([]string{"{R}/f", "{R}/a/f", "{R}/a/../f", "{RC}/f"}).Draw(t, "casep")}
 	case 0:
@@ -541,12 +674,17 @@ func gen(t *rapid.T) Case {
 	for i := 0; i < n; i++ {
 		c.Puts = append(c.Puts, genPath(t))
 	}
+	c.Urls = rapid.IntRange(0, 9).Draw(t, "urls") < 6
+	if rapid.IntRange(0, 9).Draw(t, "life2") < 6 {
+		c.Life2 = rapid.SampledFrom([]string{"reopen", "reopen", "toggle"}).Draw(t, "life2how") + ":" +
+			rapid.SampledFrom([]string{"files", "files", "files", "both", "urls", "none"}).Draw(t, "life2cfg")
+	}
 	return c
 }
 
 var spec = kit.Spec[Case]{
 	Prop: "C41", Name: "main",
-	Rule:  "sandbox with a root (8 names, optionally nested / trailing slash), siblings sharing its name as string prefix (<R>-x, <R>x, <R>.d), sibling and parent directories whose names differ only by letter case, nested dirs, dir/file symlinks inside the root; 1-3 candidate paths (pool of 40 templates or random segment sequences with '..', '.', empty segments, symlinks; absolute elsewhere; relative) put via Filestore.Put / PutMany / FileManager.Put / FileManager.PutMany; containment judged by path components; non-trivial = a path outside the root that shares its string prefix or equals an inside path up to letter case, or any path with a '..' component",
+	Rule:  "sandbox with a root (8 names, optionally nested / trailing slash), siblings sharing its name as string prefix (<R>-x, <R>x, <R>.d), sibling and parent directories whose names differ only by letter case, nested dirs, dir/file symlinks inside the root; 1-3 candidate paths (pool of 40 templates or random segment sequences with '..', '.', empty segments, symlinks; absolute elsewhere; relative; URL texts and URL lookalikes (scheme in other letter case, one slash, other scheme) followed by 0-5 '../' that - joined to the root - collapse to existing files outside the root) put via Filestore.Put / PutMany / FileManager.Put / FileManager.PutMany with the urlstore on or off; optionally a second life of the datastore (new FileManager or toggled fields) with files-only / both / urls-only / none, reading back every accepted reference that needs no network; containment judged by path components; non-trivial = a path outside the root that shares its string prefix or equals an inside path up to letter case, any path with a '..' component, a URL lookalike, or a URL text collapsing outside the root",
 	Quick: 2500, Thorough: 20000,
 	Gen: gen, Run: run,
 }
